@@ -22,6 +22,10 @@ class MappedFailure(Exception):
     """Raised by the mapped function of the failing-input variant."""
 
 
+class SourceFailure(Exception):
+    """Raised by the input iterable itself (variant srcfail)."""
+
+
 def f_ok(x):
     return 100 + x
 
@@ -45,7 +49,10 @@ class Driver:
 
     def source(self, n):
         i = 0
+        sp = self.cfg.get("sp")
         while n is None or i < n:
+            if sp is not None and i == sp and self.phase < 3:
+                raise SourceFailure(i)
             self.drawn += 1
             yield i
             i += 1
@@ -76,11 +83,12 @@ class Driver:
             self.phase = 3
         except Exception as e:  # pylint: disable=broad-except
             c = e
-            while c is not None and not isinstance(c, MappedFailure):
+            while c is not None and not isinstance(c, (MappedFailure,
+                                                       SourceFailure)):
                 c = c.__cause__ or c.__context__
             if c is None:
                 raise
-            self.error = f"MappedFailure({c.args[0]})"
+            self.error = f"{type(c).__name__}({c.args[0]})"
             self.phase = 3
         if v == "reuse":
             # second complete pass on the same pool object
@@ -161,8 +169,22 @@ def judge(cfg: dict, out: dict) -> list[str]:
     if out["exc"] is not None:
         bad.append(f"consumer got unexpected {out['exc']}")
         return bad
-    if p is None and out["error"]:
+    sp = cfg.get("sp")
+    if p is None and sp is None and out["error"]:
         bad.append(f"spurious failure {out['error']}")
+    if sp is not None:
+        # the input iterable raises at position sp: the consumer must see
+        # that error (not a normal end), results come from inputs < sp
+        ok = collections.Counter(100 + i for i in range(sp))
+        c = collections.Counter(out["got"])
+        c.subtract(ok)
+        if any(vv > 0 for vv in c.values()):
+            bad.append(f"results {out['got']} not among the inputs before "
+                       f"the failing position {sp}")
+        if out["error"] is None:
+            bad.append(f"the input iterable raised at position {sp} but the "
+                       f"consumer saw a normal end with {out['got']}")
+        return bad
     expect_all = sorted(100 + i for i in range(n)) if n is not None else None
     if p is not None and (k is None) and p < (n if n is not None else p + 1):
         # failing input: either the error reached the consumer, or (if an
@@ -204,7 +226,7 @@ def judge(cfg: dict, out: dict) -> list[str]:
 def explore_config(cfg: dict) -> dict:
     """Explore all interleavings of one configuration.
 
-    cfg keys: variant(full|early|reuse|fail|inf), T, n, k, p, n2,
+    cfg keys: variant(full|early|reuse|fail|srcfail|inf), T, n, k, p, sp, n2,
               bound (None = complete), cache(bool), lines(bool), max_exec,
               workers_first (base schedule: eager workers), slow=K (base
               schedule: every wait with a time-out expires up to K times in
